@@ -12,12 +12,10 @@ try:
     p = subprocess.run(["patch", "-p1", "-s", "-i", os.path.join(HERE, "seeded", seed, "patch.diff")], cwd=d, capture_output=True, text=True)
     if p.returncode != 0:
         print("patch failed", p.stdout, p.stderr); sys.exit(3)
-    r = subprocess.run(["python3-vt", "-m", "checks.run", prop] + extra, cwd=HERE, env=dict(os.environ, VERIF_REPO=d), capture_output=True, text=True)
+    r = subprocess.run(["python3-vt", "-m", "checks.run", prop] + extra, cwd=HERE, env=dict(os.environ, VERIF_REPO=d, VERIF_EVIDENCE_DIR=os.path.join(d, "evidence")), capture_output=True, text=True)
     out = r.stdout.strip().splitlines()
     for ln in out[-6:]:
         print(ln[:400])
     print("exit", r.returncode)
 finally:
     shutil.rmtree(d, ignore_errors=True)
-# evidence was rewritten by the run against the scratch copy: restore it from git
-subprocess.run(["git", "checkout", "--", "evidence"], cwd=HERE, capture_output=True)
